@@ -59,6 +59,7 @@ def setup_worker(ctx):
 
 
 def finish_worker(ctx):
+    _lift_descriptor_budget()
     ctx.count("open_descriptors.at_start", ctx.fds_at_start)
     ctx.count("open_descriptors.at_end", len(os.listdir("/proc/self/fd")))
     common.finish(ctx)
@@ -295,8 +296,47 @@ def _d(a, b):
     return out[:6]
 
 
+def _lift_descriptor_budget():
+    import resource
+    soft, hard = resource.getrlimit(resource.RLIMIT_NOFILE)
+    resource.setrlimit(resource.RLIMIT_NOFILE, (hard, hard))
+
+
 def run_case(ctx, idx):
-    judge(ctx, idx, make_case(ctx, idx))
+    if getattr(ctx, "fd_exhausted", False):
+        ctx.count("skipped.after_descriptor_exhaustion")
+        return
+    import errno
+    case = make_case(ctx, idx)
+    emfile = None
+    try:
+        judge(ctx, idx, case)
+    except OSError as e:
+        if e.errno != errno.EMFILE:
+            raise
+        emfile = e
+    try:
+        now = len(os.listdir("/proc/self/fd"))
+    except OSError:
+        _lift_descriptor_budget()
+        now = len(os.listdir("/proc/self/fd"))
+    if emfile is not None or now > ctx.fds_at_start + 100:
+        # the worker's descriptor budget (192) is (nearly) spent: lift it (the worker still has to write its results), report, and
+        # stop this worker's workload
+        _lift_descriptor_budget()
+        kinds = {}
+        for fd in os.listdir("/proc/self/fd"):
+            try:
+                t = os.readlink("/proc/self/fd/" + fd)
+            except OSError:
+                continue
+            k = os.path.basename(os.path.dirname(t))[:24] if "/" in t else t[:24]
+            kinds[k] = kinds.get(k, 0) + 1
+        ctx.fd_exhausted = True
+        ctx.violation(idx, "a source/destination kind keeps a file descriptor per call: %d descriptors are open (%d when the worker "
+                      "started)%s" % (now, ctx.fds_at_start,
+                                      "; the next call failed with EMFILE" if emfile is not None else ""), case,
+                      {"open_descriptors": now, "at_start": ctx.fds_at_start, "directories_of_the_open_files": sorted(kinds.items(), key=lambda kv: -kv[1])[:5]})
 
 
 def replay(ctx, rec):
